@@ -70,7 +70,7 @@ func bytesToValues(b []byte) []value {
 }
 
 // appendIntToken: "-"? digit+  (1 or 2 digit bytes stand for the whole digit string).
-func (p *Path) intToken(v sym, signed bool, fr *frame) []value {
+func (p *Path) intToken(v sym, signed bool, fr *frame) (out []value) {
 	kind := "uint"
 	if signed {
 		kind = "int"
@@ -84,8 +84,12 @@ func (p *Path) intToken(v sym, signed bool, fr *frame) []value {
 			val = mkZExt(val, 64)
 		}
 	}
+	ck := fmt.Sprintf("%s:%d", kind, val.id)
+	if cached, ok := p.tokCache[ck]; ok {
+		return append([]value{}, cached...) // the same value always formats to the same text
+	}
 	tk := p.newToken(kind, val, 64)
-	var out []value
+	defer func() { p.tokCache[ck] = append([]value{}, out...) }()
 	if signed && fr.cond(valueOf(mkCmp(OpSlt, val, mkConst(64, 0)), types.Bool)) {
 		out = append(out, byte('-'))
 	}
@@ -309,6 +313,15 @@ func init() {
 	}
 	I["fmt.Fprintln"] = func(fr *frame, args []value) value {
 		return writeTo(fr, args[0], fmtCall(fr, "Sprintln", nil, args[1].([]value)))
+	}
+	I["fmt.Append"] = func(fr *frame, args []value) value {
+		return append(args[0].([]value), strBytes(fmtCall(fr, "Sprint", nil, args[1].([]value)))...)
+	}
+	I["fmt.Appendf"] = func(fr *frame, args []value) value {
+		return append(args[0].([]value), strBytes(fmtCall(fr, "Sprintf", args[1], args[2].([]value)))...)
+	}
+	I["fmt.Appendln"] = func(fr *frame, args []value) value {
+		return append(args[0].([]value), strBytes(fmtCall(fr, "Sprintln", nil, args[1].([]value)))...)
 	}
 	I["fmt.Println"] = func(fr *frame, args []value) value { return tuple{0, iface{}} }
 	I["fmt.Printf"] = func(fr *frame, args []value) value { return tuple{0, iface{}} }
